@@ -36,6 +36,7 @@ structure TypeEnv where
   enums : List String := []
   structs : List String := []
   aliases : List String := []      -- aliases of primitives
+  errorTypes : List String := []   -- struct types that embed `error`
 deriving Repr, Inhabited
 
 structure Diag where
